@@ -117,10 +117,18 @@ def removal_guarded(prog, op):
     return True, f'{var}.todo and {var}.doing known empty on all {len(sts)} abstract paths'
 
 
-def predicate_table(pred, var):
-    """truth table of a filter predicate over (todo non-empty, doing non-empty) of `var`; None if not understood"""
+def predicate_table(pred, var, queued=False, is_que=None):
+    """truth table of a filter predicate over (todo non-empty, doing non-empty) of `var`; None if not understood.
+
+    `<var> in <the work queue>` (is_que(expr) tells) is the atom "already queued", evaluated as `queued`: a rebuild may
+    keep what is already on the queue and admit new nodes only with work."""
 
     def ev(e, t, d):
+        if is_que is not None and isinstance(e, ast.Compare) and len(e.ops) == 1 and isinstance(e.left, ast.Name) and e.left.id == var and is_que(e.comparators[0]):
+            if isinstance(e.ops[0], ast.In):
+                return queued
+            if isinstance(e.ops[0], ast.NotIn):
+                return not queued
         if isinstance(e, ast.BoolOp):
             vals = [ev(v, t, d) for v in e.values]
             if any(v is None for v in vals):
@@ -221,10 +229,13 @@ def rebind_facts(prog, op):
         return {'kind': 'unknown', 'detail': f'source {norm(src)} of the new queue is not recognisably a superset of the current queue'}
     if pred is None:
         return {'kind': 'superset', 'table': {(t, d): True for t in (False, True) for d in (False, True)}, 'detail': 'all current entries kept (no filter)'}
-    table = predicate_table(pred, var)
-    if table is None:
+    is_que = lambda e: isinstance(e, (ast.Name, ast.Attribute)) and prog.resolve_in(e, f) == wsa.QUE
+    table = predicate_table(pred, var, False, is_que)
+    kept = predicate_table(pred, var, True, is_que)
+    if table is None or kept is None:
         return {'kind': 'unknown', 'detail': f'filter predicate {norm(pred)} not understood'}
-    return {'kind': 'filtered', 'table': table, 'detail': f'entries kept iff {norm(pred)}'}
+    # `table`: nodes that are not on the queue yet; `table_queued`: entries that already are
+    return {'kind': 'filtered', 'table': table, 'table_queued': kept, 'detail': f'entries kept iff {norm(pred)}'}
 
 
 def rebind_keeps_working(prog, op):
@@ -234,8 +245,8 @@ def rebind_keeps_working(prog, op):
         return facts['rebuilt'], facts['detail']
     if facts['kind'] == 'unknown':
         return False, facts['detail']
-    t = facts['table']
-    ok = t[(False, True)] and t[(True, True)]
+    t, k = facts['table'], facts.get('table_queued', facts['table'])
+    ok = t[(False, True)] and t[(True, True)] and k[(False, True)] and k[(True, True)]
     return ok, facts['detail'] + ('' if ok else ' -- drops nodes whose doing is non-empty')
 
 
